@@ -279,6 +279,42 @@ theorem C04_stream_partial (σ : Atom Code → Bool) (hσ : σ .R = true) (code 
         (p.c.garble (symHash σ code) (symR σ) (symInl σ)) x y) (symR σ) :=
   C04_offset_not_in_span σ hσ code hsep p hwf key x y hx
 
+/-- **Streaming mode on the pinned tree leaked the offset.**  Two streamed
+instructions `w3 := w0 & w1` and `w4 := w0 & w2` (e.g. `a & b` and `a & c`),
+garbled with the per-instruction tweak restart (`persistent = false`), in ANY
+label algebra with ANY hash: the first rows of the two transmitted tables XOR
+to the offset whenever the permute bits of `w1` and `w2` differ.  (Replayed on
+the real code by `c04 stream`, case 0; repaired by fix 956e0fd.) -/
+theorem C04_stream_restart_leaks {L : Type} [LabelAlg L] (H : Hash L) (r : L)
+    (ws : Store (WireL L)) (id : Nat)
+    (hp : sbit (ws.get 1).l0 ≠ sbit (ws.get 2).l0) (tg te tg' te' : L)
+    (hrows : (streamGarble H r false [[⟨.and, 0, 1, 3⟩], [⟨.and, 0, 2, 4⟩]] ws id).2.2 =
+        [[tg, te], [tg', te']]) :
+    tg ^^^ tg' = r := by
+  have h0 : (Store.set ws 3 (garbleCore H r .and (ws.get 0) (ws.get 1) 0).1).get 0 = ws.get 0 :=
+    Store.get_set_ne _ _ _ _ (by decide)
+  have h2 : (Store.set ws 3 (garbleCore H r .and (ws.get 0) (ws.get 1) 0).1).get 2 = ws.get 2 :=
+    Store.get_set_ne _ _ _ _ (by decide)
+  simp only [streamGarble, garbleGates, garbleGate, Bool.false_eq_true, if_false, h0, h2,
+    List.append_nil, List.cons_append, List.nil_append, List.cons.injEq, and_true] at hrows
+  obtain ⟨h1, h2'⟩ := hrows
+  exact C04_tweak_reuse_leaks H r (ws.get 0) (ws.get 1) (ws.get 2) 0 hp tg te tg' te' h1 h2'
+
+/-- The hypothesis of `C04_stream_restart_leaks` is satisfiable: the two
+streamed AND gates always produce two rows each. -/
+theorem C04_stream_restart_rows {L : Type} [LabelAlg L] (H : Hash L) (r : L)
+    (ws : Store (WireL L)) (id : Nat) :
+    ((streamGarble H r false [[⟨.and, 0, 1, 3⟩], [⟨.and, 0, 2, 4⟩]] ws id).2.2.map List.length) =
+      [2, 2] := by
+  simp [streamGarble, garbleGates, garbleGate, garbleCore]
+
+/-- With the persistent counter the streamed instructions are one gate list
+garbled with a running tweak, so `C04_whole_circuit` covers streaming mode. -/
+theorem C04_stream_is_whole {L : Type} [LabelAlg L] (H : Hash L) (r : L)
+    (steps : List (List Gate)) (ws : Store (WireL L)) (id : Nat) :
+    streamGarble H r true steps ws id = garbleGates H r steps.flatten ws id :=
+  streamGarble_persistent H r steps ws id
+
 /-- sha2pc round 3 (`OutputHints`) transmits both labels of every output
 wire: in any label algebra their XOR is the offset. -/
 theorem C04_both_labels_leak {L : Type} [LabelAlg L] (r : L) (w : WireL L) (h : w.l1 = w.l0 ^^^ r) :
